@@ -9,7 +9,7 @@ From Coq Require Import List NArith Bool.
 From SV Require Import Text.Str Text.Prog Text.Tokenizer.
 From SV Require Import KV.KvBase KV.KvLex KV.KvParse KV.KvSer KV.KvSym KV.KvParseProofs KV.KvRoundtrip KV.KvStrip
   KV.KvRefine KV.KvDelivery KV.KvExport KV.KvFlags KV.KvLoop KV.KvLoopRef KV.KvLoopProofs KV.KvLoopEquiv KV.KvLoopRoundtrip
-  KV.KvWriter KV.KvFlagProg KV.KvWProg KV.KvProperty KV.KvNoEsc KV.KvShift KV.KvWHist.
+  KV.KvWriter KV.KvFlagProg KV.KvWProg KV.KvProperty KV.KvNoEsc KV.KvShift KV.KvWHist KV.KvXProg.
 Import ListNotations.
 Open Scope N_scope.
 
@@ -454,3 +454,23 @@ Theorem writer_marks_left_behind_refuted :
   /\ h_ok (run 3%nat M1 10%nat hist_witness) = false
   /\ h_marks (run 3%nat M1 10%nat hist_witness) = [97].
 Proof. exact (conj marking_writer_rejected marking_writer_refuted). Qed.
+
+(** Round 5 -- the deprecated generator export() as an instruction program [gen_xprog] (yields, the hand-on of the
+    children's lines, stores to / mutating calls on tree objects), as [_serialise] was given in round 4: a program without
+    store instructions leaves the tree as it was, whatever a store would do ... *)
+Theorem export_program_leaves_tree_unchanged : forall X E P upd, xprog_pure P = true ->
+  forall fuel w k, fst (xexec X E P upd fuel w k) = k.
+Proof. exact xexec_pure_tree. Qed.
+
+(** ... and a program whose yields are those of the structural reading [gen_expcfg] yields the export model's text. *)
+Theorem export_program_yields_model_text : forall X E P upd, xprog_text_ok X P = true ->
+  forall fuel k w, (kv_depth k <= fuel)%nat -> xexec X E P upd fuel w k = (k, exp_node X E w k).
+Proof. exact xexec_text. Qed.
+
+Theorem export_program_hypotheses_satisfiable :
+  xprog_pure (ref_xprog (PEsc FName)) = true /\
+  xprog_text_ok (ref_expcfg (PEsc FName)) (ref_xprog (PEsc FName)) = true.
+Proof. exact ref_xprog_ok. Qed.
+
+Theorem export_program_with_mutating_call_rejected : xprog_pure sorting_xprog = false.
+Proof. exact sorting_xprog_rejected. Qed.
